@@ -289,7 +289,7 @@ def rand_node(rng, ids, depth, kind=None):
         return {"k": "list", "t": rng.choice(["list", "tuple", "taglist"]), "c": [rand_node(rng, ids, depth - 1) for _ in range(rng.randint(0, 3))]}
     if kind in ("tf", "tfobj"):
         ret = rng.choice(["list", "list", "list", "one"])
-        as_ = rng.choice([None] * 8 + ["str", "meta", "stored", "stored", "sublist", "seq", "inst", "inst", "tagsub", "htmldunder", "htmldunder"]) if kind == "tf" else None
+        as_ = rng.choice([None] * 8 + ["str", "meta", "stored", "stored", "sublist", "seq", "inst", "inst", "tagsub", "htmldunder", "htmldunder", "mapping", "mapping"]) if kind == "tf" else None
         if as_ in ("sublist", "tagsub"):
             ret = "list"
         if ret == "one":
